@@ -18,8 +18,9 @@ class StaticPlanning(Planning):
     """Mirrors SHADOWPlanning.generate_plan's output shape: every task carries a
     planned machine id and planned est/eft from a deterministic list schedule."""
 
-    def __init__(self, algorithm="static", delay_model=None, seed=0, assign=None, sort_by_est=True):
+    def __init__(self, algorithm="static", delay_model=None, seed=0, assign=None, sort_by_est=True, slack=0):
         super().__init__(algorithm, delay_model)
+        self.slack = slack               # planned finish = planned start + runtime + slack (conservative estimates)
         self.seed = seed
         self.sort_by_est = sort_by_est   # False: the plan lists its tasks in topological, not est, order
         self.assign = assign        # optional {obsname: {node: machine_id}}
@@ -58,7 +59,7 @@ class StaticPlanning(Planning):
             est = ready[mid]
             for p in graph.predecessors(node):
                 est = max(est, eft_of[p])
-            eft = est + dur
+            eft = est + dur + self.slack
             eft_of[node] = eft
             ready[mid] = eft
             tid = self._create_observation_task_id(node, observation, clock)
